@@ -9,6 +9,16 @@ TRUST = ("rustc nightly's type checker and MIR construction (facts are read from
 
 CLAIMS = {
     # id: (technique, level text, design_ref)
+    "C01": ("T-PAIR loop/post-dominance over the encoder's consumers, clause-registration must-call analysis, three-way sibling agreement of each Clause variant (MIR)",
+            "Decides necessary structural conditions of C01 on every path: each requirement/constraint/package of a Dependencies "
+            "value, each excluded and each locked-out candidate reaches its clause constructor unconditionally inside a loop over "
+            "the complete collection; candidates go through the at-most-one tracker of their own package; every allocated clause "
+            "is registered with the mechanism that propagates it (watch map / negative assertions / learnt ids) and conflict flags "
+            "reach run_sat; constructor watches, try_fold_literals and movability agree per variant in field and polarity; "
+            "negative assertions are re-applied in full each round; the solution is the true-valued solvable decisions; the "
+            "candidate lists come from the provider's filter with the right flag. Dropping any one of these passes all 57 tests. "
+            "That propagation/learning compute a model of the clauses is not decided.",
+            "DESIGN.md section 4 C01"),
     "C06": ("order-source census (T-ORD) over resolved callees and receiver types + expected-zero entropy census + type facts",
             "C06 is a good fit for static analysis: nondeterminism must enter through an identifiable source. The check enumerates "
             "every order-revealing operation on a hash-ordered container (any hasher; resolved by rustc), requires each to be a "
